@@ -376,6 +376,8 @@ class MultiTypeMap(dict):
         funcs.reverse()
 
         parents = []
+        entries = []
+        errors = []
         for group, (func, codes) in zip(results, funcs):
             tups = (
                 [obj_t_tup]
@@ -384,14 +386,22 @@ class MultiTypeMap(dict):
             )
             if func is None:
                 for tup in tups:
-                    self.errors[tup] = self.key_error(obj_t_tup, group)
+                    errors.append((tup, self.key_error(obj_t_tup, group)))
                 break
             else:
                 for tup in tups:
-                    self[tup] = func
+                    entries.append((tup, func))
             if not codes:
                 break
             parents = codes
+
+        # The entry for the tuple itself is written last: once it is there
+        # lookups no longer come through here, so everything call_next needs
+        # must already be in place
+        for tup, err in reversed(errors):
+            self.errors[tup] = err
+        for tup, func in reversed(entries):
+            self[tup] = func
 
         return True
 
